@@ -78,6 +78,7 @@ func (fr *Frame) monitorCall(ins ssa.CallInstruction, cc *ssa.CallCommon, ci *ca
 	fr.curIns = ins
 	fr.curPos = ins.Pos()
 	held := c.ghost(fr.st, "held")
+	fr.callSpecAsserts(ci, fr.callOrdinal(ci.key), args, nil)
 	fr.ghostAtCall(ci, 0, "before", args)
 	defer fr.ghostAtCallAfter(ci, 0, args, nil)
 	defer fr.callSpecAssumes(ci)
